@@ -726,41 +726,43 @@ Proof.
   - intros H. exists (c :: r). split; [exact H|]. split; [discriminate|left; reflexivity].
 Qed.
 
-(* between integer points the point part of a collision is: equal, or the negation *)
+(* between integer points the point part of a collision is equality
+   (since the look-behind of fix 0083ac1; before it the negation p' = -p was a second case) *)
 Lemma int_point_bsuffix p p' :
-  int_point p = true -> int_point p' = true -> bsuffix p p' = true ->
-  p' = p \/ p' = 45 :: p.
+  int_point p = true -> int_point p' = true -> bsuffix p p' = true -> p' = p.
 Proof.
   intros Hp Hp' H. unfold bsuffix in H. rewrite !andb_true_iff in H. destruct H as [[Hlen Heq] Hb].
   apply str_eqb_eq in Heq.
   set (n := (List.length p' - List.length p)%nat) in *.
   assert (E : p' = firstn n p' ++ p) by (rewrite <- Heq; symmetry; apply firstn_skipn).
-  destruct (firstn n p') as [|a u]; [left; exact E|].
+  destruct (firstn n p') as [|a u]; [exact E|exfalso].
   destruct (int_point_shape p Hp) as [ds [Hds [Hne [-> | ->]]]];
-    destruct (int_point_shape p' Hp') as [ds' [Hds' [Hne' [E' | E']]]]; rewrite E' in E |- *.
+    destruct (int_point_shape p' Hp') as [ds' [Hds' [Hne' [E' | E']]]]; rewrite E' in E.
   - (* digits = (a::u) ++ digits : the prefix ends in a digit, no boundary *)
-    exfalso. assert (Hn : is_neg ds = false).
+    assert (Hn : is_neg ds = false).
     { destruct ds as [|c r]; [congruence|]. cbn. cbn in Hds. apply andb_true_iff in Hds.
       destruct Hds as [Hc _]. destruct (Z.eqb_spec c 45) as [->|]; [discriminate|reflexivity]. }
     rewrite Hn in Hb. cbn [orb] in Hb.
     rewrite E, digits_app in Hds'. apply andb_true_iff in Hds'. destruct Hds' as [Hu _].
     rewrite (digits_last_word (a :: u) None Hu) in Hb by discriminate. discriminate.
-  - (* -digits' = (a::u) ++ digits *)
+  - (* -digits' = (a::u) ++ digits : the prefix ends in the minus sign or in a digit *)
     cbn [app] in E. injection E as Ea Eu. subst a.
-    destruct u as [|b u']; [right; cbn in Eu; rewrite Eu; reflexivity|exfalso].
     assert (Hn : is_neg ds = false).
     { destruct ds as [|c r]; [congruence|]. cbn. cbn in Hds. apply andb_true_iff in Hds.
       destruct Hds as [Hc _]. destruct (Z.eqb_spec c 45) as [->|]; [discriminate|reflexivity]. }
     rewrite Hn in Hb. cbn [orb] in Hb.
-    rewrite Eu, digits_app in Hds'. apply andb_true_iff in Hds'. destruct Hds' as [Hu _].
-    change (last_opt None (45 :: b :: u')) with (last_opt (Some 45) (b :: u')) in Hb.
-    rewrite (digits_last_word (b :: u') (Some 45) Hu) in Hb by discriminate.
-    discriminate.
+    destruct u as [|b u'].
+    + (* look-behind: not after a minus sign *)
+      cbn in Hb. discriminate.
+    + rewrite Eu, digits_app in Hds'. apply andb_true_iff in Hds'. destruct Hds' as [Hu _].
+      change (last_opt None (45 :: b :: u')) with (last_opt (Some 45) (b :: u')) in Hb.
+      rewrite (digits_last_word (b :: u') (Some 45) Hu) in Hb by discriminate.
+      discriminate.
   - (* digits' = (a::u) ++ -digits : a minus sign among digits *)
-    exfalso. apply (digits_no_minus ds' Hds'). rewrite E.
+    apply (digits_no_minus ds' Hds'). rewrite E.
     apply in_or_app. right. left. reflexivity.
   - (* -digits' = (a::u) ++ -digits *)
-    exfalso. cbn [app] in E. injection E as Ea Eu.
+    cbn [app] in E. injection E as Ea Eu.
     apply (digits_no_minus ds' Hds'). rewrite Eu. apply in_or_app. right. left. reflexivity.
 Qed.
 
